@@ -98,6 +98,9 @@ def render_strings(k, it: Item, meta, cfg, extra_derives=(), strum_path="strum")
         src = [hostile_wrap(render_item(it, dl, bounds=bounds), getattr(it, "hostile", None) or _HOSTILE_ENV)]
     else:
         src = [render_item(it, dl, bounds=bounds)]
+    if meta.get("sibling") is not None:
+        # a SECOND enum in the same module, with the same derives: helper items the derives emit next to the impls must not collide
+        src.append(render_item(meta["sibling"], dl, bounds=bounds))
     ty = RR.inst(it)
     E = RR.turbofish(it)
     src.append(RR.vobs_fn(it))
